@@ -87,6 +87,10 @@ def plan(tier, seed):
     out += L.split_plan("ordered:O4x3x2", spaces.shape_pairs(4, 3, min_obj=4), o2, 15, {"family": "ordered", "costs": v5[:2]})
     out += L.split_plan("unordered:U3x3x3", spaces.shape_pairs(3, 3), u3, 20, {"family": "unordered", "costs": v5[:3]})
     out += L.split_plan("unordered:U4x2x4", spaces.shape_pairs(4, 2, min_obj=4), u4, 15, {"family": "unordered", "costs": v5[:2]})
+    # 4-leaf chains on three species leaves, 2 families: reordering / renaming / repetition only
+    out += L.split_plan("unordered:U4chainx3x2/presentation",
+                        [(o, s_) for o in spaces.chain_shapes(4) for s_ in spaces.binary_shapes(3)], u2, 15,
+                        {"family": "unordered", "costs": v5[:1], "kinds": ["same", "twice", "after", "inplace"]})
     out.insert(0, {"slice": "determinism", "family": "det", "tier": "thorough"})
     return out
 
